@@ -166,8 +166,8 @@ PROPS = {
             [rnd("both", "bulk", 4000, 50, exclude="serde,deser,retain,retainmut,sortedvec,intovec", boost="eq:6,clone:4"),
              pygen("eq_twins", 6000),
              # equality and clones of queues in every reachable condition (leaked iter_mut, caught panics, ...)
-             rnd("both", "all", 1500, 50, exclude="serde,deser", boost="eq:8,clone:6,clonefrom:4,itermut:3"),
-             rnd("both", "fuse", 800, 50, boost="eq:8,clone:6,clonefrom:4")],
+             rnd("both", "all", 1500, 50, exclude="serde,deser", boost="eq:8,clone:8,itermut:3"),
+             rnd("both", "fuse", 800, 50, boost="eq:8,clone:8")],
             [rnd("both", "bulk", 30000, 80, exclude="serde,deser", boost="eq:6,clone:4"), pygen("eq_twins", 60000)]),
     ),
     "C15": dict(
